@@ -201,9 +201,11 @@ PROPS = {
         level_text="Deductive proof (any number of infosets): ExactSizeIterator contract of the infoset iterator (size_hint == "
                    "number of items still yielded, decreasing by exactly one per item), k-th item is infoset k with the k-th "
                    "block of the dense vector, then the single-action infosets in order.",
-        level_note="Representation invariant assumed at method entry (constructor + preservation proved). Action iterator "
-                   "(find/filter/count chains) handled by bounded Kani harnesses.",
+        level_note="Representation invariant assumed at method entry (constructor + preservation proved). Action iterator: the predicates "
+                   "handed to find (next) and filter (size_hint) are under Verus contract (both: probability > 0), the find/filter/count chains "
+                   "themselves are std code pinned textually and exercised by bounded Kani harnesses.",
         verus=[U("c13_named_iter", ["C13.V.NamedStrategyIter.exact_size", "C13.V.NamedStrategyIter.kth_block"]),
+               U("c13_action_iter_predicates", ["C13.V.action_iter.next_lists_positive", "C13.V.action_iter.len_counts_positive"]),
                U("c18_truncate_sums_to_one", ["C18.V.truncate.sums_to_one (the named view of a truncated profile still sums to one)"]),
                U("c18_truncate_block", ["C18.V.truncate.rescale"]), U("c18_truncate_whole", ["C18.V.truncate.whole"]),
                U("c14_normalise", ["C14.V.normalise.weight_over_total (importing the view back yields the profile)"]),
